@@ -740,9 +740,9 @@ class Identities(Sub):
 # --------------------------------------------------------------------------------------------
 # PV
 
-PV_Q = dict(rates=[0, 0.05, 0.01, 0.5, 1, -0.5], periods=[0, 1, 2, 10, 2.5], pays=[0, 100, -250.5],
+PV_Q = dict(rates=[0, 0.05, 0.01, 0.5, 1, -0.5, 1e-6, 1e-9, 1e-12, 1e-15, -1e-9], periods=[0, 1, 2, 10, 2.5], pays=[0, 100, -250.5],
             futs=[0, 1000, -1000])
-PV_T = dict(rates=[0, 0.05, 0.01, 0.5, 1, -0.5, 0.001, 0.1, 2, -0.25, -0.9],
+PV_T = dict(rates=[0, 0.05, 0.01, 0.5, 1, -0.5, 0.001, 0.1, 2, -0.25, -0.9, 1e-6, 1e-9, 1e-12, 1e-15, 1e-17, -1e-9, -1e-13],
             periods=[0, 1, 2, 10, 2.5, 360, -2, 30], pays=[0, 100, -250.5, 1],
             futs=[0, 1000, -1000, 0.5])
 
@@ -799,7 +799,8 @@ class Pv(Sub):
         else:
             R, P, F, T, V = float(r), float(pay), float(fv), float(t), float(pv)
             g = math.pow(1 + R, n)
-            annuity = P * n if R == 0 else P * (1 + R * T) * (g - 1) / R
+            # (g - 1) / R without cancellation for tiny rates
+            annuity = P * n if R == 0 else P * (1 + R * T) * math.expm1(n * math.log1p(R)) / R
         residual = V * g + annuity + F
         scale = abs(V * g) + abs(annuity) + abs(F)
         if isinstance(residual, Fraction):
